@@ -9,13 +9,23 @@ pub mod common;
 #[cfg(kani)]
 mod warmup;
 #[cfg(kani)]
+mod c10;
+#[cfg(kani)]
+mod c11;
+#[cfg(kani)]
+mod c12;
+#[cfg(kani)]
 mod c13;
 #[cfg(kani)]
 mod c14;
 #[cfg(kani)]
+mod c15;
+#[cfg(kani)]
 mod c16;
 #[cfg(kani)]
 mod c17;
+#[cfg(kani)]
+mod c18;
 #[cfg(kani)]
 mod c01;
 #[cfg(kani)]
